@@ -254,9 +254,15 @@ class RepoWorld:
 
 def build(cfg, hist, spec):
     w = RepoWorld()
-    for op in hist:
+    for op in list(cfg.get('start', [])) + list(hist):
         w.apply(tuple(op))
     return w
+
+
+# a state whose newest increment is empty: a quick backup found the file
+# longer than the repository, but only by an unfinished transaction
+EMPTY_INC = [['commit'], ['commit'], ['backup', 'F'],
+             ['backup-inflight', 'Q']]
 
 
 def node(w, hist, cfg, res):
@@ -357,6 +363,10 @@ DAMAGE_HISTS = [
     [('backup', 'z'), ('commit',), ('backup', 'z')],
     [('backup', 'F'), ('commit',), ('backup', 'Q'), ('commit',),
      ('backup', 'Q', 'z')],
+    # two chains: the newest full backup has an older one to fall back to
+    [('backup', 'F'), ('commit',), ('backup',), ('commit',), ('backup', 'F'),
+     ('commit',), ('backup',)],
+    [('backup', 'F'), ('commit',), ('backup', 'F')],
 ]
 
 
@@ -366,18 +376,26 @@ def run(rep, tier, seed, workers):
         'all histories up to the depth over {commit, pack, backup with flag '
         'sets (none, F, Q, z, k, Fz; all 10 in the thorough tier), backup '
         'while a transaction is between vote and finish (plain and quick)} '
-        'through repozo.main with a virtual clock; after every history: '
+        'through repozo.main with a virtual clock, from the initial state '
+        'and (plain and quick backups only) from a state whose newest '
+        'increment is empty; after every history: '
         'recover at every date in {none, each backup second, +-1 s} with and '
         'without --with-verify compared byte for byte with the committed '
         'prefix recorded at the selected backup, opened with the restored '
-        'index, repository verified full and quick; for 3 fixed histories '
+        'index, repository verified full and quick; for 5 fixed histories '
+        '(two of them with an older chain behind the current one) '
         'every chain file removed / cut at every length / altered at every '
         'byte and verified; non-trivial = history with at least two backups')
     cfg = dict(prop='C18', flagsets=[list(f) for f in (
         FLAGSETS[:6] if tier == 'quick' else FLAGSETS)])
     fps = seqx.explore(rep, MOD, cfg, depth, workers, seed, split=2)
-    rep.cov['states'] = max(len(fps), 1)
+    cfg2 = dict(prop='C18', flagsets=[[], ['Q']], inflight=False,
+                start=EMPTY_INC)
+    fps2 = seqx.explore(rep, MOD, cfg2, depth - 1, workers, seed, split=1)
+    rep.cov['states'] = max(len(fps) + len(fps2), 1)
     rep.bounds['history depth'] = depth
+    rep.bounds['depth after commit, commit, full backup, quick backup with '
+               'a transaction in progress'] = depth - 1
     tasks = [(MOD, 'damage_task', ([list(o) for o in h],))
              for h in DAMAGE_HISTS]
     par.run_tasks(tasks, workers, rep, seed)
